@@ -388,7 +388,15 @@ def fn_three(data):
     return 3
 
 
-FUNCTIONS = {"fn_w0": fn_w0, "fn_seven": fn_seven, "fn_three": fn_three}
+def fn_same_as_len(data):
+    return data['len']            # hands back the value object it was given
+
+
+def fn_len_in_m(data):
+    return data['len'].convert('m')   # converts the value it was given, as the documented examples do
+
+
+FUNCTIONS = {"fn_w0": fn_w0, "fn_seven": fn_seven, "fn_three": fn_three, "fn_same_as_len": fn_same_as_len, "fn_len_in_m": fn_len_in_m}
 
 
 def prestate2(b, pre, text, name="t", functions=()):
@@ -533,6 +541,9 @@ C16_TEXTS = [
     ("own-value-used-twice-around-a-comparison-in-another-unit", 'lim float = 1 m\nsz float = {?w0} cm\n  !condition ("{?} < {?lim} && {?} < 5")', ("and", ("lt", w0, 100), ("lt", w0, 5)), [("sz", w0)]),
     ("own-value-used-twice-around-a-comparison-in-another-unit-2", 'lim float = 1 m\nsz float = {?w0} cm\n  !condition ("{?} < {?lim} && {?} > 5")', ("and", ("lt", w0, 100), ("gt", w0, 5)), [("sz", w0)]),
     ("another-node-used-twice-around-a-comparison-in-another-unit", 'lim float = {?w1} m\nsz float = {?w0} cm\n  !condition ("{?lim} > {?} && {?lim} < 3")', ("and", ("gt", ("*", w1, 100), w0), ("lt", w1, 3)), [("sz", w0)]),
+    # a slice written on the definition applies to the value it was written on, not to later assignments: those are judged as they are
+    ("sliced-definition-then-a-modification-within-the-bounds", "bb int[4] = [1,2,3,4]\naa int[2:3] = {?bb}[1:3]\naa = [7,8]", True, []),
+    ("sliced-definition-then-a-modification-outside-the-bounds", "bb int[4] = [1,2,3,4]\naa int[2] = {?bb}[0:2]\naa = [5,6,7]", False, []),
     # the empty text is a text like any other: as an option, as a value, as a modification
     ("empty-text-among-the-options-value-outside", 'nm str = abc\n  !options ["","x"]', False, []),
     ("empty-text-among-the-option-lines-value-outside", 'nm str = abc\n  = ""\n  = x', False, []),
@@ -601,6 +612,9 @@ C18_TEXTS = [
     ("definedness", 'y bool = ("!{?a} && {?f}")\nz bool = ("!{?nope} || {?g}")', False, [("y", bf), ("z", bg)], None),
     ("string-comparison", 'y bool = ("{?name} == Tina && {?f}")\nz bool = ("{?name} == Tom || {?g}")', False, [("y", bf), ("z", bg)], None),
     ("case-condition-with-units", '@case ("{?a} > {?b}")\n  x int = 1\n@else\n  x int = 2\n@end', False, [("x", ("+", 2, ("*", -1, ("gt", ("*", wa, 100), wb))))], None),
+    # a node without unit defined by an expression whose result is a pure number carried by a unit of its own size (%, a custom count)
+    ("pure-numbers-in-units-with-a-size", '$unit dozen = 12\np1 float = ("2 [dozen] * 3")\np2 float = ("50 % * 2")\np3 int = ("2 [dozen] + 1")\np4 float = ("{?k} * 1 [dozen] / 4")\np5 float = ("10 m / 5 cm")', False,
+     [("p1", 72), ("p2", 1), ("p3", 25), ("p4", ("*", wk, 3)), ("p5", 200)], ("gt", wk, 0.001)),
     # template references with several slice parts: an index 0 is an index like any other
     ("template-slices-starting-with-index-zero", 'widths float[2,2] = [[1,2],[3,4]]\ncube int[2,2,2] = [[[1,2],[3,4]],[[5,6],[7,8]]]\nt str = ("{{?widths}[0,1]:.2e}")\nu str = ("{{?cube}[0,0]}")\n'
      'v str = ("{{?cube}[1,0]}")\nw str = ("{{?widths}[0]}")\nx str = ("{{?cube}[0,1,1]}")', False,
@@ -806,6 +820,9 @@ C14_TEXTS = [
     ("function-modification", "len = (fn_w0)\ncnt = (fn_three)", False, [("len", w0), ("cnt", 3)], [("len", "cm")]),
     ("function-modification-stating-a-unit", "len = (fn_w0) m", False, [("len", ("*", w0, 100))], [("len", "cm")]),
     ("expression-then-function-then-literal", 'len = ("{?w0} * 2 mm") mm\nlen = (fn_seven)\nlen = {?w1} m', False, [("len", ("*", w1, 100))], [("len", "cm")]),
+    # a function works on values of its own: returning or converting what it was given changes no other node
+    ("function-returning-the-value-it-was-given", "len = {?w0}\nn float = 1 m\nn = (fn_same_as_len)\nk float = (fn_len_in_m) km", False,
+     [("len", w0), ("n", ("/", w0, 100)), ("k", ("/", w0, 100000))], [("len", "cm"), ("n", "m"), ("k", "km")]),
     ("modifying-an-undefined-node-refused", "nope = 3", True, [], []),
     # assignment by reference takes the CURRENT value of the referenced node, none included
     ("reference-to-a-node-that-was-set-to-none", "n2 float = 2 m\nn2 = none\nlen = {?n2}\nk2 int = 4\nk2 = none\ncnt = {?k2}", False, [("len", ("none",)), ("cnt", ("none",)), ("n2", ("none",))], [("len", "cm")]),
@@ -908,6 +925,10 @@ def _(c):
 
 # ---- C13: whole texts whose data are the literals themselves (concrete; executed by the same interpreter, decided by ground evaluation) ----
 C13_TEXTS = [
+    # a node written a second time (re-opened group, dotted spelling) with the literal none has no value afterwards, whatever its type
+    ("rewritten-as-none", 'box\n  name str = cube\n  open bool = true\n  sides str[2] = ["left","right"]\n  n int = 3 m\n  x float = 1.5\nbox.name str = none\nbox\n  open bool = none\n'
+     '  sides str[2] = none\nbox.n int = none\nbox.x float = none',
+     [("box.name", "str", None, None), ("box.open", "bool", None, None), ("box.sides", "str", None, None), ("box.n", "int", None, "m"), ("box.x", "float", None, None)]),
     # the declared width is part of the type, the numbers are the ones written (0.1 is 0.1, not its single-precision neighbour)
     ("narrow-float-arrays-keep-the-numbers-written", 'w float32[3] = [0.1,0.2,2.5] V\nx float32 = 0.1\nblk float32[2] = """\n[0.7,1e-3]\n""" m\nq float128[2] = [0.1,0.25]',
      [("w", "float", [0.1, 0.2, 2.5], "V"), ("x", "float", 0.1, None), ("blk", "float", [0.7, 1e-3], "m"), ("q", "float", [0.1, 0.25], None)]),
@@ -1278,6 +1299,28 @@ for _cls in BACKENDS:
             return dict(args=[b.new(cls, env)], env=dict(env=env))
         c.scenario("all-widths", pre)
         c.ensures("typed_view(env) == old(typed_view(env))", "typed-values-of-the-environment-as-before")
+        c.no_raise()
+
+
+# ---- C19: the declared type of an exported integer is the node's (width and sign) also when the node was given its value in a second step ----
+ASSIGNED_TWICE = {
+    "dip/config/export.py::ExportConfig": 'counter uint16 = 65535\ndecl uint16 = 40000\nbig uint64 = 4000000000\ns16 int16 = -5',
+    "dip/config/export_rust.py::ExportConfigRust": 'pub const COUNTER: u16 = 65535;\npub const DECL: u16 = 40000;\npub const BIG: u64 = 4000000000;\npub const S16: i16 = -5;',
+    "dip/config/export_c.py::ExportConfigC": '#ifndef CONFIG_H\n#define CONFIG_H\n\nconst unsigned short int COUNTER = 65535;\nconst unsigned short int DECL = 40000;\nconst unsigned long long int BIG = 4000000000;\nconst short int S16 = -5;\n\n#endif /* CONFIG_H */',
+}
+
+
+for _cls, _want in ASSIGNED_TWICE.items():
+    @contract(_cls + ".parse", ["C19"], name=_cls.split("::")[1] + ".parse[integers-assigned-in-a-second-step]")
+    def _(c, cls=_cls, want=_want):
+        c.bound = "unsigned and narrow integers that are defined and modified, or declared and then defined"
+
+        def pre(b):
+            d0 = b.new(DIPC, name="t")
+            b.call(b.getattr(d0, "add_string"), 'counter uint16 = 3\ncounter = 65535\ndecl uint16\ndecl = 40000\nbig uint64 = 1\nbig = 4000000000\ns16 int16 = 1\ns16 = -5')
+            return dict(args=[b.new(cls, b.call(b.getattr(d0, "parse")))], env=dict(want=want))
+        c.scenario("defined-then-modified-and-declared-then-defined", pre)
+        c.ensures("result == want", "declared-with-the-width-and-sign-of-the-node")
         c.no_raise()
 
 
